@@ -236,8 +236,30 @@ def build_species(strengths, s):
                              chstt=chs, units_system=py_sys(U, s["units"]))
 
 
+def reassign_space_units(rng, desc):
+    """the space is built in one units system and given another afterwards (a documented use of the `units_system` property): what was
+    stated at construction keeps its physical meaning, so the description becomes 'quantities explicit in the old units, space in
+    the new ones' and `built_in` tells build_space to take that road"""
+    sp = desc["space"]
+    old = list(sp["units"])
+
+    def explicit(q):
+        return {"sys": old, "v": q["bare"]} if "bare" in q else q
+    if sp["type"] == "grid":
+        sp["vol"] = explicit(sp["vol"])
+    sp["built_in"] = old
+    sp["units"] = list(rand_sys(rng))
+    return desc
+
+
 def build_space(strengths, sp):
     U = strengths.units
+    if sp.get("built_in"):
+        first = dict(sp, units=sp["built_in"])
+        del first["built_in"]
+        space = build_space(strengths, first)
+        space.units_system = py_sys(U, sp["units"])
+        return space
     if sp["type"] == "grid":
         return strengths.RDGridSpace(w=sp["w"], h=sp["h"], d=sp["d"], cell_env=list(sp["env"]),
                                      cell_vol=py_qty(U, sp["vol"], DIMS["vol"]),
